@@ -224,8 +224,10 @@ def main(tier, replay=None):
         for s in b1:
             if s["k"] in ("imp", "inc"):
                 cnt["position " + s["pos"]] += 1
-                cnt["spelling %d" % s["sp"]] += s["sp"] in (1, 2, 3)
+                if s["sp"] in (1, 2, 3):
+                    cnt["spelling %d" % s["sp"]] += 1
     B.require_nonvacuous("c09", cnt)
+    B.binding_demo(jobs)
     results = B.pool_map(run_case, jobs, workers=8)
     by_nf = {}
     nontriv = set()
@@ -233,7 +235,9 @@ def main(tier, replay=None):
     across = {}
     for (i, case, *_), res in zip(jobs, results):
         if res["ok"] or res["fired"]:
-            if not (case["expect"][0]["exit"] == 134 or res.get("okay") is None):
+            # executions that ran into resource exhaustion (model: PATH_MAX / stack bound) are not comparable step by step
+            if not (case["expect"][0]["exit"] == 134 or res.get("okay") is None
+                    or {"RawPathKeys", "PushAfterCompletion"} & set(res["fired"])):
                 by_nf.setdefault(case["nf"], []).append((case, res["events"]))
         if not res["ok"]:
             if res["fired"]:
